@@ -83,7 +83,13 @@ def gen_random(rng, big):
     if rng.random() < 0.3:  # cut a part off
         x = rng.randrange(n)
         arcs = [a for a in arcs if a[1] != x or rng.random() < 0.2]
-    if rng.random() < 0.1:  # a terminal without arcs
+    if rng.random() < 0.7:  # plant one or two s-t paths so that most cases carry flow
+        for _ in range(rng.choice([1, 1, 2])):
+            inner = [x for x in range(n) if x not in (s, t)]
+            rng.shuffle(inner)
+            p = [s] + inner[:rng.randint(0, min(4, len(inner)))] + [t]
+            arcs += [(p[i], p[i + 1], rng.randint(1, 9)) for i in range(len(p) - 1)]
+    if rng.random() < 0.06:  # a terminal without arcs
         x = rng.choice([s, t])
         arcs = [a for a in arcs if x not in (a[0], a[1])]
     rng.shuffle(arcs)
@@ -126,8 +132,8 @@ def gen_layered(rng, big):
 def gen_cross(rng, big):
     """two internally disjoint s-t paths P, Q and a crossing arc P[i] -> Q[j] making a short path that
     BFS finds first; the maximum then needs the reverse residual arc of an arc of that path."""
-    lp = rng.choice([2, 2, 3, 3] + ([4] if big else []))   # inner nodes of P
-    lq = rng.choice([1, 2, 2, 3])
+    lp = rng.choice([2, 3, 3, 3] + ([4] if big else []))   # inner nodes of P
+    lq = rng.choice([1, 2, 3, 3])
     while lp + lq + 2 > (10 if big else 8):
         lp -= 1
     P = [0] + list(range(1, lp + 1))
@@ -142,8 +148,9 @@ def gen_cross(rng, big):
     # crossing arcs between inner nodes, both directions possible
     for _ in range(rng.choice([1, 1, 2])):
         a, b = (P, Q) if rng.random() < 0.5 else (Q, P)
-        i = rng.randint(1, len(a) - 2)
-        j = rng.randint(1, len(b) - 2)
+        # early on one path -> late on the other: the crossing path is the shortest one
+        i = 1 if rng.random() < 0.7 else rng.randint(1, len(a) - 2)
+        j = len(b) - 2 if rng.random() < 0.7 else rng.randint(1, len(b) - 2)
         arcs.append((a[i], b[j], rng.choice([1, c, c, 5])))
     r = rng.random()
     if r < 0.25:  # explicit reverse keys (zero or positive capacity): the unrepaired code copes
